@@ -121,6 +121,30 @@ def d1_kinds(chk, F):
     ok = len(secpush) == 1 and in_loop(g, secpush[0][0])
     chk.expect(ok, "C19.D1-kinds", "one Section per core section", f"{g.file}:{g.line}", "sections.push must happen exactly once per iteration over recipe.sections",
                sample="sections.push(Section{..}) once per core section")
+    # ... for EVERY core section: the loop walks recipe.sections itself (no filter / skip / take / rev in the iterator's lineage)
+    # and no iteration can come back to the loop head without having pushed its Section
+    heads = []
+    for b, t in g.calls():
+        ck = callee_key(t) or ""
+        if ck.endswith(("Iterator>::next", "Iterator::next")):
+            e = arg_expr(g, t, 0)
+            if ".sections" in full(e) and ".content" not in full(e):
+                heads.append((b, e))
+    okh = len(heads) == 1
+    if okh and secpush:
+        hb, he = heads[0]
+        calls = [l[5:] for l in leaves(he) if l.startswith("call:")]
+        plain = all(c.endswith(("IntoIterator>::into_iter", "<impl [T]>::iter", "Deref>::deref", "Iterator>::next", "Iterator::next")) for c in calls)
+        chk.expect(plain, "C19.D1-kinds", "every core section|plain iteration", g.where(hb),
+                   f"the section loop does not walk recipe.sections directly (iterator built through {[c.rsplit('::', 1)[-1] for c in calls][:5]}): "
+                   "a filtered or reordered walk drops or renumbers sections", sample=f"{g.where(hb)}: for section in &recipe.sections")
+        P = secpush[0][0]
+        back = hb in g.reach_from(hb, removed_nodes={P}) - {hb} or any(hb in g.reach_from(s_, removed_nodes={P}) for s_ in g.succ[hb] if s_ != P)
+        chk.expect(not back, "C19.D1-kinds", "every core section|no skipped iteration", g.where(hb),
+                   "an iteration of the section loop can return to the loop head without pushing a Section (`continue` / early skip)",
+                   sample=f"{g.where(hb)}: every iteration passes sections.push")
+    else:
+        chk.fail("C19.D1-kinds", "every core section|loop head", f"{g.file}:{g.line}", f"expected one loop over recipe.sections in into_simple_recipe, found {len(heads)}")
     blocks = [(b, t) for b, t in calls_to(g, "Vec::push") if _recv_var(g, t["args"][0]) == "blocks"]
     kinds = sorted(re.search(r"Block::(\w+)", full(arg_expr(g, t, 1))).group(1) for b, t in blocks if re.search(r"Block::(\w+)", full(arg_expr(g, t, 1))))
     chk.expect(kinds == ["NoteBlock", "StepBlock"], "C19.D1-kinds", "blocks", f"{g.file}:{g.line}", f"blocks pushed: {kinds}", sample="Step ↦ StepBlock, Text ↦ NoteBlock")
